@@ -131,10 +131,22 @@ class Ctx:
         self.assumptions = set()
 
     def feasible(self, st):
+        """is the path condition satisfiable together with the quantified hypotheses instantiated
+        at the candle positions it mentions?  (unknown counts as feasible)"""
+        from .solve import ground
+        from .state import Obligation
+
         self.feas_checks += 1
+        ob = Obligation(id="feasible", kind="cover", func=self.func, label="", pc=list(st.pc), goal=z3.BoolVal(False),
+                        qassumes=list(st.qassumes), sums=list(st.inst_terms))
+        try:
+            hyps, _ = ground(ob, self, rounds=1)
+        except Exception:
+            hyps = list(st.pc)
         s = z3.Solver()
-        s.set("timeout", 500)
-        for c in st.pc:
+        s.set("rlimit", 2000000)
+        s.set("timeout", 5000)
+        for c in hyps:
             s.add(c)
         r = s.check()
         return r != z3.unsat
